@@ -855,12 +855,40 @@ func (g *gen) sGoto(fc *fctx) []Stmt {
 		oldMult := g.mult
 		g.mult *= iters
 		g.declare(&varInfo{name: iv, k: kNum, readonly: true, fnLevel: fc.level})
-		body := g.block(1+g.ch(2), fc)
+		var bodyS []Stmt
+		if g.ch(2) == 0 {
+			// the body's locals are declared directly in the label's block: every pass must get fresh ones
+			g.use("goto_backward_flat")
+			g.push()
+			bodyS = g.stmtsIn(1+g.ch(2), fc)
+			if g.feat("closure") {
+				cv, cf, gn := g.fresh("cv"), g.fresh("cf"), g.fresh("GC")
+				g.prog.NFuncs++
+				fd := &FuncDef{ID: g.prog.NFuncs, Body: []Stmt{&Assign{Targets: []Expr{Var{cv}}, Exprs: []Expr{Bin{"+", Var{cv}, Num{1}}}}, &Return{Exprs: []Expr{Var{cv}}}}}
+				bodyS = append(bodyS, &Local{Names: []string{cv}, Exprs: []Expr{Bin{"*", Var{iv}, Num{10}}}}, &Local{Names: []string{cf}, Exprs: []Expr{Func{fd}}},
+					&Assign{Targets: []Expr{Index{Var{"GT"}, Bin{"+", Var{iv}, Num{1}}}}, Exprs: []Expr{Var{cf}}})
+				_ = gn
+			}
+			g.pop()
+		} else {
+			bodyS = []Stmt{&Do{Body: g.block(1+g.ch(2), fc)}}
+		}
 		g.mult = oldMult
-		out := []Stmt{&Local{Names: []string{iv}, Exprs: []Expr{Num{0}}}, &Label{Name: lbl}, &Do{Body: body},
+		out := append([]Stmt{&Local{Names: []string{iv}, Exprs: []Expr{Num{0}}}, &Label{Name: lbl}}, bodyS...)
+		out = append(out,
 			&Assign{Targets: []Expr{Var{iv}}, Exprs: []Expr{Bin{"+", Var{iv}, Num{1}}}},
-			&If{Conds: []Expr{Bin{"<", Var{iv}, Num{float64(iters)}}}, Blocks: [][]Stmt{{&Goto{Label: lbl}}}}}
-		return []Stmt{&Do{Body: out}}
+			&If{Conds: []Expr{Bin{"<", Var{iv}, Num{float64(iters)}}}, Blocks: [][]Stmt{{&Goto{Label: lbl}}}})
+		res := []Stmt{&Do{Body: out}}
+		if g.prog.Features["goto_backward_flat"] > 0 && g.feat("closure") {
+			// use the closures created in the passes: each must have its own variable
+			r1, r2, r3 := g.fresh("gr"), g.fresh("gr"), g.fresh("gr")
+			res = append(res, g.sClobberN(10)...)
+			res = append(res,
+				&Call{Names: []string{r1}, Fn: Index{Var{"GT"}, Num{1}}}, &Call{Names: []string{r2}, Fn: Index{Var{"GT"}, Num{2}}}, &Call{Names: []string{r3}, Fn: Index{Var{"GT"}, Num{1}}},
+				g.emitVars("gtf", r1, r2, r3))
+			res = []Stmt{&Do{Body: append([]Stmt{&Assign{Targets: []Expr{Var{"GT"}}, Exprs: []Expr{TableCons{}}}}, wrapPcall(g, res)...)}}
+		}
+		return res
 	}
 }
 
@@ -968,3 +996,7 @@ func (g *gen) sClobberN(n int) []Stmt {
 	}
 	return []Stmt{&Call{Fn: Var{"clobber"}, Args: args}}
 }
+
+// wrapPcall keeps statements whose calls may hit a nil (a pass that did not happen) from ending the program:
+// they are used as they are; the GT entries exist for the passes that ran (iters >= 2).
+func wrapPcall(g *gen, ss []Stmt) []Stmt { return ss }
